@@ -151,6 +151,23 @@ SmallOps == {<<Assign("x", IntL(1), 1)>>, <<Assign("x", StrL("s"), 1)>>, <<Assig
 ScopeProgs == ScopeProgsOf(SmallOps, {<<Assign("x", IntL(2), 1)>>, <<Assign("x", BoolL(TRUE), 1)>>, <<>>})
 ScopeProgsAll == ScopeProgsOf(OpsXY \cup {<<>>}, OpsXY \cup {<<>>})
 \* 'loop' can never be assigned or supplied as data; loop-bound names vanish after the construct
+\* every kind of value (also an object shaped like the loop object, the loop object itself, data-supplied objects) assigned
+\* to 'loop' at every kind of position: the scope that holds the loop object, scopes inside it, scopes without one
+LoopVals == {IntL(1), StrL("s"), BoolL(TRUE), FloatL(3, 1), NilL, ArrL(<<IntL(1)>>), ObjL(<<>>),
+             ObjL(<<[key |-> "index", ex |-> IntL(9)], [key |-> "first", ex |-> BoolL(TRUE)]>>), Var("ob"), Var("loop"), Var("ti")}
+LoopData == CondData \o <<[n |-> "ob", v |-> O(<<[pk |-> "index", pv |-> I(7)]>>)]>>
+LoopDataVals == {I(1), S("s"), B(TRUE), F(3, 1), Nil, A(<<I(1)>>), O(<<>>), O(<<[pk |-> "index", pv |-> I(7)]>>)}
+For2(body) == For(Assign("i", IntL(0), 1), Bin("<", Var("i"), IntL(2)), Post("++", Var("i")), body, NoElse, 1)
+LoopCtx(st) == {<<st, H("z")>>,
+                <<H("a"), If(<<Br(IntL(1), <<st>>)>>, NoElse, 1)>>,
+                <<Each("v", Var("ar"), <<st, P(LoopF("index"))>>, NoElse, 1)>>,
+                <<Each("v", Var("ar"), <<P(LoopF("iter")), st>>, NoElse, 1)>>,
+                <<Each("v", Var("ar"), <<If(<<Br(BoolL(TRUE), <<st>>)>>, NoElse, 1), P(LoopF("index"))>>, NoElse, 1)>>,
+                <<Each("v", Var("ar"), <<Each("w", Var("ar"), <<st>>, NoElse, 1)>>, NoElse, 1)>>,
+                <<Each("v", ArrL(<<>>), <<H("b")>>, <<st>>, 1)>>,
+                <<Each("v", Var("ar"), <<P(V)>>, NoElse, 1), st>>,
+                <<For2(<<st, P(Var("i"))>>)>>,
+                <<Each("v", Var("ar"), <<For2(<<st>>)>>, NoElse, 1)>>}
 LoopProgs == {[p |-> <<Assign("loop", IntL(1), 1)>>, d |-> <<>>],
               [p |-> <<H("a"), If(<<Br(IntL(1), <<Assign("loop", StrL("s"), 1)>>)>>, NoElse, 1)>>, d |-> <<>>],
               [p |-> <<Each("v", Var("ar"), <<Assign("loop", IntL(1), 1)>>, NoElse, 1)>>, d |-> CondData],
@@ -162,6 +179,8 @@ LoopProgs == {[p |-> <<Assign("loop", IntL(1), 1)>>, d |-> <<>>],
                        P(Var("i"))>>, d |-> <<>>],
               [p |-> <<Each("v", Var("ar"), <<Assign("t", V, 1)>>, NoElse, 1), P(Var("t"))>>, d |-> CondData],
               [p |-> <<Each("v", ArrL(<<IntL(1), StrL("s")>>), <<P(V)>>, NoElse, 1)>>, d |-> <<>>]}
+             \cup {[p |-> p, d |-> LoopData] : p \in UNION {LoopCtx(Assign("loop", e, 1)) : e \in LoopVals}}
+             \cup {[p |-> <<H("x"), P(Var("a"))>>, d |-> <<[n |-> "a", v |-> I(1)], [n |-> "loop", v |-> v]>>] : v \in LoopDataVals}
 
 \* empty bodies: a branch, an @else or a loop body may be empty (C02: "nothing otherwise")
 EmptyBodies == {<<H("a"), If(<<Br(c1, b1)>>, e, 1), H("z")>> : c1 \in {BoolL(TRUE), BoolL(FALSE)}, b1 \in {<<>>, <<H("[1]")>>}, e \in {NoElse, <<>>, <<H("[e]")>>}}
